@@ -96,14 +96,7 @@ def check(ctx):
         ctx.inst('R4', (path, cname), 'all-attributes-cached', not uncached, 'element attributes not cached and not in the reviewed exception table: %s' % sorted(uncached))
 
     # ---- R5 ----------------------------------------------------------------------------
-    rpat = [s for s in walk_own(fetch.node) if isinstance(s, ast.Assign) and isinstance(s.value, ast.BinOp) and isinstance(s.value.op, ast.Mod)]
-    wpat = [s for s in walk_own(ins.node) if isinstance(s, ast.Assign) and isinstance(s.value, ast.BinOp) and isinstance(s.value.op, ast.Mod)]
-    ctx.need(len(rpat) == 1 and len(wpat) == 1, 'file name patterns not found')
-    rp, wp = fold_in(fetch, rpat[0].value.left), fold_in(ins, wpat[0].value.left)
-    ctx.inst('R5', fetch, 'name-pattern', isinstance(rp, str) and isinstance(wp, str) and wp.endswith('/' + rp) and rp == '%08X.json',
-             'reader suffix %r must be the file part of writer name %r' % (rp, wp))
-    ctx.inst('R5', fetch, 'reader-key=crc', norm(rpat[0].value.right) == fetch.params[1], 'lookup key is the crc argument')
-    ctx.inst('R5', ins, 'writer-key=crc', norm(wpat[0].value.right) == '(self._rw_cache, %s)' % ins.params[1], 'file name is built from rw_cache and the crc argument')
+    rpat = cache_name_rules(ctx, 'R5')
     ends = [c for c in walk_own(fetch.node) if method_call(c, 'endswith') and norm(c.args[0]) == norm(rpat[0].targets[0])]
     ctx.inst('R5', fetch, 'suffix-match', len(ends) == 1, 'candidate files are matched by name suffix')
     fcb = m.func(TOC, 'TocFetcher._new_packet_cb')
@@ -159,6 +152,118 @@ def check(ctx):
     init = tc.method('__init__')
     st = [s for s in walk_own(init.node) if isinstance(s, ast.Assign) and norm(s.targets[0]) == 'self._rw_cache']
     ctx.inst('R6', init, 'rw-attr', len(st) == 1 and norm(st[0].value) == 'rw_cache', 'self._rw_cache is the rw_cache argument')
+
+
+def cache_name_rules(ctx, rule='R5'):
+    """Reader and writer of the cache format the CRC identically (shared with C03: a table cached for another CRC must never be adopted)."""
+    m = ctx.model
+    tc = m.cls(TC, 'TocCache')
+    fetch, ins = tc.method('fetch'), tc.method('insert')
+    rn = name_exprs(tc, fetch)
+    wn = name_exprs(tc, ins)
+    ctx.need(len(rn) == 1 and len(wn) == 1, 'file name patterns not found (reader %d, writer %d)' % (len(rn), len(wn)))
+    rspec, wspec = name_spec(rn[0][1], rn[0][2]), name_spec(wn[0][1], wn[0][2])
+    ctx.need(rspec is not None and wspec is not None, 'file name format not recognised')
+    ok = rspec['crc_spec'] == wspec['crc_spec'] == ('0', 8, 'X') and rspec['suffix'] == wspec['suffix'] == '.json' and rspec['prefix_args'] == []
+    ctx.inst(rule, fetch, 'name-pattern', ok,
+             'reader and writer must format the CRC identically as 8 zero-padded upper-case hex digits + .json (a shorter reader pattern matches other tables by suffix); '
+             'reader %s writer %s' % (rspec, wspec))
+    ctx.inst(rule, fetch, 'reader-key=crc', rspec['crc_arg'] == fetch.params[1], 'lookup key is the crc argument; found %s' % rspec['crc_arg'])
+    ctx.inst(rule, ins, 'writer-key=crc', wspec['crc_arg'] == ins.params[1] and wspec['prefix_args'] == ['self._rw_cache'] and wspec['sep'] == '/',
+             'file name is built from rw_cache and the crc argument; found dir %s crc %s' % (wspec['prefix_args'], wspec['crc_arg']))
+    rpat = [rn[0][0]]
+    return rpat
+
+
+def _helper_name(klass, v):
+    """self._file_name(crc) / TocCache._file_name(crc) -> (format expr with the arguments substituted, helper) or None"""
+    if isinstance(v, ast.Call) and isinstance(v.func, ast.Attribute) and norm(v.func.value) in ('self', klass.name, 'cls') and klass.has(v.func.attr):
+        h = klass.method(v.func.attr)
+        rets = [r.value for r in walk_own(h.node) if isinstance(r, ast.Return) and r.value is not None]
+        if len(rets) == 1 and '.json' in norm(rets[0]):
+            from ..symexec import subst
+            static = any(norm(d) == 'staticmethod' for d in h.node.decorator_list)
+            ps = h.params if static else h.params[1:]
+            return subst(rets[0], {p: a for p, a in zip(ps, v.args)}), h
+    return None
+
+
+def name_exprs(klass, func):
+    """[(assign stmt, format expression, function it is written in)] for assignments building a '*.json' file name in func,
+    following one level of same-class helper calls and os.path.join(dir, name)."""
+    out = []
+    for st in walk_own(func.node):
+        if not isinstance(st, ast.Assign):
+            continue
+        v = st.value
+        hn = _helper_name(klass, v)
+        if hn:
+            out.append((st, hn[0], hn[1]))
+            continue
+        if isinstance(v, ast.Call) and dotted(v.func) == 'os.path.join' and len(v.args) == 2:
+            inner = _helper_name(klass, v.args[1])
+            tail = inner[0] if inner else v.args[1]
+            if '.json' in norm(tail):
+                out.append((st, ('join', v.args[0], tail), func))
+            continue
+        if '.json' in norm(v) and (not isinstance(v, ast.Call) or (isinstance(v.func, ast.Attribute) and v.func.attr == 'format')):
+            out.append((st, v, func))
+    return out
+
+
+def name_spec(expr, func):
+    """Normalise '%s/%08X.json' % (d, crc), '{}/{:08X}.json'.format(d, crc), f'{d}/{crc:08X}.json' to
+    {prefix_args, sep, crc_arg, crc_spec=(fill, width, type), suffix}."""
+    import re as _re
+    if isinstance(expr, tuple) and expr[0] == 'join':
+        sp = name_spec(expr[2], func)
+        if sp is None:
+            return None
+        sp['prefix_args'] = [norm(expr[1])] + sp['prefix_args']
+        sp['sep'] = '/' + sp['sep']
+        return sp
+    parts = []          # list of ('lit', text) / ('arg', expr text, spec)
+    if isinstance(expr, ast.BinOp) and isinstance(expr.op, ast.Mod) and isinstance(expr.left, ast.Constant) and isinstance(expr.left.value, str):
+        args = list(expr.right.elts) if isinstance(expr.right, ast.Tuple) else [expr.right]
+        pos = 0
+        i = 0
+        for mt in _re.finditer(r'%(0?)(\d*)([sdXx])', expr.left.value):
+            parts.append(('lit', expr.left.value[pos:mt.start()]))
+            parts.append(('arg', norm(args[i]) if i < len(args) else '?', ('0' if mt.group(1) else '', int(mt.group(2) or 0), mt.group(3))))
+            i += 1
+            pos = mt.end()
+        parts.append(('lit', expr.left.value[pos:]))
+    elif isinstance(expr, ast.Call) and isinstance(expr.func, ast.Attribute) and expr.func.attr == 'format' and isinstance(expr.func.value, ast.Constant):
+        txt = expr.func.value.value
+        pos = 0
+        i = 0
+        for mt in _re.finditer(r'\{(\d*)(?::(0?)(\d*)([sdXx]?))?\}', txt):
+            parts.append(('lit', txt[pos:mt.start()]))
+            idx = int(mt.group(1)) if mt.group(1) else i
+            parts.append(('arg', norm(expr.args[idx]) if idx < len(expr.args) else '?', ('0' if mt.group(2) else '', int(mt.group(3) or 0), mt.group(4) or 's')))
+            i += 1
+            pos = mt.end()
+        parts.append(('lit', txt[pos:]))
+    elif isinstance(expr, ast.JoinedStr):
+        for v in expr.values:
+            if isinstance(v, ast.Constant):
+                parts.append(('lit', str(v.value)))
+            elif isinstance(v, ast.FormattedValue):
+                spec = ''
+                if v.format_spec is not None and all(isinstance(x, ast.Constant) for x in v.format_spec.values):
+                    spec = ''.join(str(x.value) for x in v.format_spec.values)
+                mt = _re.match(r'^(0?)(\d*)([sdXx]?)$', spec)
+                if not mt:
+                    return None
+                parts.append(('arg', norm(v.value), ('0' if mt.group(1) else '', int(mt.group(2) or 0), mt.group(3) or 's')))
+    else:
+        return None
+    args = [p for p in parts if p[0] == 'arg']
+    lits = [p[1] for p in parts if p[0] == 'lit']
+    if not args:
+        return None
+    crc = args[-1]
+    return {'prefix_args': [a[1] for a in args[:-1]], 'sep': ''.join(lits[:-1]).replace('%', ''), 'crc_arg': crc[1], 'crc_spec': crc[2], 'suffix': lits[-1]}
 
 
 def path_source(f, node):
